@@ -17,7 +17,7 @@ LEVEL_TEXT = ("For even N up to 16 (quick) / 32 (thorough) the full Jacobian of 
               "Fourier sum of the modified von Karman spectrum (1e-12); zero response to zero draws, linearity, the r0^(-5/6) law, the draw "
               "requests themselves (two N x N standard normals, plus six 3 x 3), the FFT= hook, families of calls that share (N, delta, L0) "
               "but differ in r0 / l0 within one process (incl. l0 > L0 and L0 = inf), integer / None seeds tied to the probed ensemble by an exactly-once ledger over every Gaussian draw of the generators the library creates (no number may be used twice; with and without the FFT= hook), the grid size given as numpy integers of every width, the sub-harmonic increment (exactly the low-frequency sum, never negative) and a "
-              "refinement ladder against the analytic structure function. Exploration over parameters; exact over draws.")
+              "refinement ladder against the analytic structure function. One coefficient of a 5800-point (quick) / 8192-point (thorough) grid, whose squared integer wave numbers exceed 2^24, is observed through a scripted unit draw and must carry the amplitude sqrt(PSD) del_f to 1e-10. Exploration over parameters; exact over draws.")
 LEVEL_NOTE = ("Trusted: the explicit Fourier sum in aomon/oracles/screen.py, NumPy. Integer seeds cannot be scripted; they are tied to the "
               "probed ensemble by demanding that seed=s gives the same screen as seed=numpy.random.default_rng(s) (one independent stream).")
 RULE = "case = (variant, N, delta, r0, L0, l0, probe kind); non-trivial always; distinct by parameters"
@@ -38,6 +38,8 @@ def plan(tier, seed):
     rungs = [16, 32, 64] if tier == "quick" else [32, 64, 128, 256]
     for k, N in enumerate(rungs):
         out[k]["ladder"] = {"N": N, "rungs": rungs}
+    # one coefficient of a grid whose squared integer wave numbers exceed 2^24 (single precision would round them): ~3 GB, 30-60 s
+    out[9]["large_grid"] = 5800 if tier == "quick" else 8192
     return out
 
 
@@ -270,6 +272,36 @@ def ladder_rung(ctx, aotools, N, rungs):
         ctx.check(dev <= bound, "refinement:finest_level", "deviation at the finest level (N=%d) is %.4f > %.2f" % (N, dev, bound), None)
 
 
+def large_grid_probe(ctx, aotools, N):
+    """One coefficient of a grid with several thousand points a side (integer wave numbers whose squares sum beyond 2^24): the plane wave a unit
+    draw produces must have the amplitude sqrt(PSD(f)) del_f of the screen's own frequency grid, to double rounding -- the same constant
+    of proportionality as on a 64-point grid."""
+    r0, L0 = 0.2, 30.0
+
+    def amplitude(M):
+        delta = 60.0 / M
+        l0 = delta / 50.0
+        small = discover_shapes(aotools.ft_phase_screen, r0, 8, 60.0 / 8, L0, 60.0 / 8 / 50.0)
+        if not all(all(d == 8 for d in sh) and len(sh) == 2 for sh in small) or not small:
+            return None
+        shapes = [tuple(M for _ in sh) for sh in small]
+        scr = np.asarray(aotools.ft_phase_screen(r0, M, delta, L0, l0, seed=ScriptedGenerator(unit_stream_script(1, shapes))))
+        ctx.count("probe_screens")
+        del_f = 1.0 / (M * delta)
+        f = del_f * np.sqrt((M / 2.0) ** 2 + (M / 2.0 - 1.0) ** 2)
+        a = float(np.sqrt(2.0 * np.mean(scr.astype(np.float64) ** 2)))
+        return a / (np.sqrt(so.psd_mvk(f, r0, L0, l0)) * del_f)
+
+    c_small = amplitude(64)
+    if c_small is None or not np.isfinite(c_small) or c_small == 0:
+        ctx.count("large_grid_probe_not_applicable(draw pattern not scriptable)")
+        return
+    c_big = amplitude(N)
+    wit = {"N": N, "cell": (0, 1), "constant_at_N=64": c_small, "constant_at_N": c_big}
+    ctx.case("large_grid_coefficient", key=("large_grid", N), nontrivial=True, sample=wit)
+    ctx.close("large_grid_amplitude", c_big / c_small, 1.0, 1e-10, "ft_phase_screen:coefficient_amplitude:grid_of_thousands_of_points", wit)
+
+
 def run(ctx, spec):
     import aotools
     from aotools.turbulence import phasescreen as ps
@@ -293,5 +325,7 @@ def run(ctx, spec):
             ctx.case("unseeded_ensemble:" + nm, key=("unseeded", nm, ctx.seed, ctx.shard), nontrivial=True, sample={"calls": m, "distinct": len(ds)})
             ctx.count("unseeded_screens", m)
             ctx.check(len(ds) == m, nm + ":unseeded_screens_from_a_finite_set", "%d unseeded 4x4 screens: only %d distinct" % (m, len(ds)), {"calls": m})
+    if spec.get("large_grid"):
+        large_grid_probe(ctx, aotools, spec["large_grid"])
     if spec.get("ladder"):
         ladder_rung(ctx, aotools, spec["ladder"]["N"], spec["ladder"]["rungs"])
